@@ -6,7 +6,8 @@ class Band(scen.Follower):
     """Humans who may ring late, early within the row (when their place is up to `ahead` places away),
     and sometimes double-click (ringing the next stroke early)."""
 
-    def __init__(self, s, bells, rng, late, ahead, double_p):
+    def __init__(self, s, bells, rng, late, ahead, double_p, scripted_lead=None):
+        self.scripted_lead = scripted_lead      # this bell's row-0 strike is scripted in the scenario
         self.rng = rng
         self.late = late
         self.ahead = ahead
@@ -22,6 +23,8 @@ class Band(scen.Follower):
                 key = (bot._row_number, q, id(row))
                 if bell in self.bells and key not in self.done:
                     self.done.add(key)
+                    if bell == self.scripted_lead and bot._row_number == 0:
+                        continue
                     lag = self.rng.choice(self.late)
                     s.push(t + lag, "internal", lambda tt, b=bell: s.human_strike(tt, b))
                     if self.rng.random() < self.double_p:
@@ -31,6 +34,7 @@ class Band(scen.Follower):
 
 class C09(scen.WorldProp):
     id = "C09"
+    fuzz_kinds = {"ring", "r_expect", "r_bell"}
     lean_module = "Wheatley.Props.C09"
     theorems = ["Wheatley.C09.wait_holds",
                 "Wheatley.C09.poll_returns_to_test",
@@ -64,11 +68,27 @@ class C09(scen.WorldProp):
                 events.append(call(t0 + 3 + rng.uniform(0.5, 3) * I * N, GO))
             end = t0 + 3 + 14 * I * (N + 1) + 6
             style = rng.choice(["late", "late", "mixed", "early", "erratic"])
+            lead = None
+            if stage == N and rng.random() < 0.2:
+                # a human leads and pulls off late; meanwhile Look To is called again
+                lead = 1
+                if 1 not in humans:
+                    humans = sorted(humans + [1])[:N - 1] if len(humans) < N - 1 else [1] + humans[1:]
+                    humans = sorted(set(humans))
+                d = rng.choice([2.0, 5.0, 20.0, 90.0]) + rng.random()
+                events.append([t0 + d, "strike", 1])
+                events.append(call(t0 + rng.uniform(0.2, d - 0.2), LOOK_TO))
+                if not udi:
+                    events = [e for e in events if e[2].get("call") != GO] if False else events
+                    events.append(call(t0 + d + 3 + rng.uniform(0.5, 3) * I * N, GO))
+                end += d
+                events.sort(key=lambda e: e[0])
             sc = {"start": 1000.0, "end": end, "tower_size": N, "events": events,
                   "on_join": scen.humans_on_join(humans),
                   "bot": scen.bot_cfg(spec, up_down_in=udi),
                   "rhythm": scen.rhythm_cfg("wait", inertia=rng.choice([0.0, 0.5, 1.0]), peal_speed=ps)}
-            yield {"k": "world", "scenario": sc, "humans": humans, "style": style, "seed": rng.getrandbits(32)}
+            yield {"k": "world", "scenario": sc, "humans": humans, "style": style, "seed": rng.getrandbits(32),
+                   "lead": lead}
 
     def agents(self, req):
         import random
@@ -78,7 +98,7 @@ class C09(scen.WorldProp):
                 "erratic": [0.0, 0.003, 0.011, 0.2, 2.5]}[style]
         ahead = {"late": 0, "mixed": 1, "early": 4, "erratic": 2}[style]
         dbl = {"late": 0.0, "mixed": 0.05, "early": 0.1, "erratic": 0.15}[style]
-        return lambda s: [Band(s, req["humans"], rng, late, ahead, dbl)]
+        return lambda s: [Band(s, req["humans"], rng, late, ahead, dbl, req.get("lead"))]
 
     def nontrivial(self, req, reply):
         return scen.b2f(reply.get("delay_bits", 0)) > 0 if "delay_bits" in reply else len(scen.rings(reply)) > 4
